@@ -16,6 +16,9 @@ import (
 // shipped handler go/upgrade/migrations/dummy.go does.
 type UpgradeSpec struct {
 	AtHeight int64
+	// NewMaxTxSize > 0: the migration sets the consensus parameter MaxTxSize to this value
+	// (like migrations/consensus_240.go raises it); 0 = MaxTxSize++ as in migrations/dummy.go.
+	NewMaxTxSize uint64
 }
 
 // mockUpgrader implements upgrade/api.Backend for the multiplexer.
@@ -51,7 +54,11 @@ func (u *mockUpgrader) ConsensusUpgrade(privateCtx any, _ beacon.EpochTime, curr
 		if err != nil {
 			return fmt.Errorf("unable to load consensus parameters: %w", err)
 		}
-		params.MaxTxSize++
+		if u.spec.NewMaxTxSize > 0 {
+			params.MaxTxSize = u.spec.NewMaxTxSize
+		} else {
+			params.MaxTxSize++
+		}
 		if err = state.SetConsensusParameters(ctx, params); err != nil {
 			return fmt.Errorf("failed to update consensus parameters: %w", err)
 		}
